@@ -78,8 +78,8 @@ func pfKind(t types.Type) string {
 		}
 	}
 	if b, ok := types.Unalias(t).Underlying().(*types.Basic); ok {
-		if _, named := types.Unalias(t).(*types.Named); named {
-			// a named integer type (enum): only the plain natives are translated
+		if _, named := types.Unalias(t).(*types.Named); named && b.Kind() != types.Int && b.Kind() != types.Int64 && b.Kind() != types.Uint64 {
+			// a named integer type (enum) is translated when it is 64 bits wide like the plain natives
 			return ""
 		}
 		switch b.Kind() {
@@ -166,6 +166,7 @@ type pfState struct {
 	adopted   map[string]bool // binders that already stand for a Go variable
 	callHints []string
 	callHintsFor *ast.CallExpr
+	switchTag []string
 	closure   int
 	pure      int
 	loop      int
@@ -829,6 +830,30 @@ func (t *pfTr) call(x *ast.CallExpr, en pfEnv, hint string, k func([]string) str
 			return t.panicCall(x)
 		}
 		return t.unrec(x, "builtin")
+	}
+	// getter of an interface- or struct-valued input (a parameter such as amm.Order): a listed,
+	// argument-free method is a field of that input
+	if recv != nil && len(x.Args) == 0 {
+		if id, ok := recv.(*ast.Ident); ok {
+			if v, ok := en[t.objOf(id)]; ok && strings.HasPrefix(v, pfInPrefix) {
+				listed := false
+				for _, r := range t.f.spec.reads {
+					if r == callee.Name() {
+						listed = true
+					}
+				}
+				kd := t.kindOf(x)
+				if listed && pfScalar(kd) {
+					key := v[len(pfInPrefix):]
+					base := strings.TrimPrefix(key, "param ")
+					if b, ok := t.f.extraK["\x00base "+key]; ok {
+						base = b
+					}
+					return one(t.input(key+"."+callee.Name()+"()", base+"_"+strings.TrimPrefix(callee.Name(), "Get"), kd))
+				}
+				return t.unrec(x, "method of an input that is not a listed getter")
+			}
+		}
 	}
 	// method of Int / Dec
 	if recv != nil {
@@ -1642,8 +1667,23 @@ func (t *pfTr) switchStmt(x *ast.SwitchStmt, en pfEnv, k func(pfEnv) string) str
 		})
 	}
 	if x.Tag != nil {
-		return t.unrec(x, "switch with a tag")
+		// switch tag { case c: .. }: the tag is evaluated once, each case compares it with constants
+		tk := t.kindOf(x.Tag)
+		if tk != "i64" && tk != "u64" {
+			return t.unrec(x, "switch on a tag that is not a native integer")
+		}
+		return t.expr(x.Tag, en, "", func(tag string) string {
+			t.switchTag = append(t.switchTag, tag)
+			defer func() { t.switchTag = t.switchTag[:len(t.switchTag)-1] }()
+			y := *x
+			y.Tag = nil
+			return t.switchStmtTagged(&y, tag, en, k)
+		})
 	}
+	return t.switchStmtTagged(x, "", en, k)
+}
+
+func (t *pfTr) switchStmtTagged(x *ast.SwitchStmt, tag string, en pfEnv, k func(pfEnv) string) string {
 	var cases []*ast.CaseClause
 	var def *ast.CaseClause
 	for _, s := range x.Body.List {
@@ -1670,6 +1710,21 @@ func (t *pfTr) switchStmt(x *ast.SwitchStmt, en pfEnv, k func(pfEnv) string) str
 		}
 		cc := cases[i]
 		var cond ast.Expr = cc.List[0]
+		if tag != "" {
+			var cs []string
+			for _, ce := range cc.List {
+				c, ok := t.constOf(ce)
+				if !ok {
+					return t.unrec(ce, "non-constant case of a tagged switch")
+				}
+				cs = append(cs, "("+tag+" =? "+c+")")
+			}
+			c := cs[0]
+			if len(cs) > 1 {
+				c = "(" + strings.Join(cs, " || ") + ")"
+			}
+			return "(if " + c + " then\n\x01" + t.block(cc.Body, en, kb) + "\x02\nelse\n\x01" + chain(i+1, en, kb) + "\x02)"
+		}
 		if len(cc.List) > 1 {
 			return t.unrec(cc, "case with several conditions")
 		}
